@@ -127,7 +127,7 @@ theorem parseOptTpl_adv {r r' : Rd} {res : Except Err Template} (h : parseOptTpl
             simp only [nfields, List.length_nil] at *
             omega
 
-theorem dataLen_adv {r r' : Rd} {sl t : Nat} {res : Except Err Nat} (h : dataLen r sl t = (res, r')) :
+theorem dataLen_adv {r r' : Rd} {sl : Nat} {res : Except Err Nat} (h : dataLen r sl = (res, r')) :
     Adv r r' ∧ ∀ e, res = .error e → e = .short := by
   simp only [dataLen] at h
   split at h
@@ -165,7 +165,7 @@ theorem decFields_adv : ∀ (fs : List Spec) (r : Rd) (acc : Record) (res : Exce
     | some p =>
       obtain ⟨fid, t⟩ := p
       simp only at h
-      generalize hdl : dataLen r f.len t = dl at h
+      generalize hdl : dataLen r f.len = dl at h
       obtain ⟨dres, r1⟩ := dl
       have t1 := dataLen_adv hdl
       cases dres with
